@@ -87,3 +87,96 @@ def swap_remove(ctx, rid, funcs, what):
                 ctx.violation(rid, inst, f.where(bad[0]), "the element at the shrunk bound `%s` is moved into position `%s`, but a path reaches `++%s` without stepping the index back: the moved element is never examined (%s)" % (
                     bound, i, i, what))
     return n_loops
+
+
+def _arm_tokens(f, nodes):
+    shape, ids = [], []
+    for st in nodes:
+        for x in f.walk(st):
+            k = x["k"]
+            if k in ("ref", "member"):
+                shape.append((k,))
+                ids.append(x.get("n") or "")
+            elif k in ("call", "mcall", "construct"):
+                shape.append((k, len(x.get("c", ()))))
+                ids.append("@" + (f.call_name(x) or ""))
+            elif k in ("int", "bool", "str", "char", "float"):
+                shape.append((k, str(x.get("v"))))
+            else:
+                shape.append((k, x.get("op")))
+    return tuple(shape), ids
+
+
+def _pattern(ids):
+    first, out = {}, []
+    for i, s in enumerate(ids):
+        if s not in first:
+            first[s] = i
+        out.append(first[s])
+    return tuple(out)
+
+
+def switch_arms(f, sw):
+    """[(labels, statement nodes)] of a switch statement."""
+    body = f.deref(sw["c"][1]) if len(sw.get("c", ())) > 1 else None
+    if body is None or body["k"] != "block":
+        return []
+    arms, cur = [], None
+    for st in body.get("c", ()):
+        st = f.deref(st)
+        if st is None:
+            continue
+        if st["k"] in ("case", "default"):
+            inner, labels = st, []
+            while inner is not None and inner["k"] in ("case", "default"):
+                kids = [f.deref(x) for x in inner.get("c", ())]
+                if inner["k"] == "case" and kids:
+                    labels.append(f.text(kids[0]))
+                inner = kids[-1] if kids and (inner["k"] == "default" or len(kids) > 1) else None
+            cur = [labels, [inner] if inner is not None else []]
+            arms.append(cur)
+        elif cur is not None:
+            cur[1].append(st)
+    return arms
+
+
+def copy_paste_arms(ctx, rid, funcs, minimum_arms=3):
+    """Switch arms that are copies of one another (same shape once identifiers are abstracted) must
+    use their identifiers consistently: positions that carry the same identifier in the other arms
+    carry the same identifier in every arm (a cache slot tested, returned and filled; a traits struct
+    read three times).  Reports the arm whose identifier pattern deviates."""
+    import collections
+    n = 0
+    seen = set()
+    for f in funcs:
+        if (f.relfile, f.line) in seen:
+            continue
+        seen.add((f.relfile, f.line))
+        for sw in f.walk():
+            if sw["k"] != "switch":
+                continue
+            groups = collections.defaultdict(list)
+            for labels, nodes in switch_arms(f, sw):
+                if not nodes:
+                    continue
+                sh, ids = _arm_tokens(f, nodes)
+                if len(ids) >= 3:
+                    groups[sh].append((labels, ids, nodes))
+            for sh, g in groups.items():
+                if len(g) < minimum_arms:
+                    continue
+                pats = collections.Counter(_pattern(ids) for _, ids, _ in g)
+                maj, cnt = pats.most_common(1)[0]
+                if cnt < len(g) - 1 or cnt < 2:
+                    continue        # no clear majority: not a family of copies
+                for labels, ids, nodes in g:
+                    n += 1
+                    inst = "%s switch arm %s" % (f.name, "/".join(labels) or "default")
+                    pat = _pattern(ids)
+                    if pat == maj:
+                        ctx.ok(rid, inst, f.where(nodes[0]))
+                    else:
+                        k = [i for i in range(len(ids)) if pat[i] != maj[i]][0]
+                        ctx.violation(rid, inst, f.where(nodes[0]), "this arm is a copy of its %d siblings but uses `%s` where they repeat the identifier they used before (`%s` here): a copy/paste slip" % (
+                            len(g) - 1, ids[k], ids[maj[k]]))
+    return n
